@@ -19,6 +19,7 @@ import LinVerif.Model.FixedOffset
 import LinVerif.Model.Stream
 import LinVerif.Model.StreamExt
 import LinVerif.Model.BufAlias
+import LinVerif.Model.EncUtils
 
 namespace LinVerif.Driver.C14
 open LinVerif LinVerif.Bits LinVerif.Varint
@@ -119,6 +120,37 @@ def stepPure (ws : List String) : Option String :=
   | ["b2u", h] => do
     let bs ← unhex h
     some s!"{FixedOffset.byteSlice2Uint32 bs}"
+  | ["hb", n] => do
+    let x ← n.toNat?
+    if x ≥ two32 then none else
+    some s!"{EncUtils.highBits x} {EncUtils.lowBits x}"
+  | ["hlv", hi, lo] => do
+    let hi ← hi.toNat?
+    let lo ← lo.toNat?
+    if hi ≥ two32 ∨ lo ≥ 65536 then none else
+    some s!"{EncUtils.valueWithHighLowBits hi lo}"
+  | "u32b" :: vs => do
+    let vs ← vs.mapM String.toNat?
+    if vs.any (· ≥ two32) then none else
+    some (hex (EncUtils.u32SliceToBytes vs))
+  | "u64b" :: vs => do
+    let vs ← vs.mapM String.toNat?
+    if vs.any (· ≥ two64) then none else
+    some (hex (EncUtils.u64SliceToBytes vs))
+  | ["bu32", h] => do
+    let bs ← unhex h
+    some (" ".intercalate ("n" :: (EncUtils.bytesToU32Slice bs).map toString))
+  | ["bu64", h] => do
+    let bs ← unhex h
+    some (" ".intercalate ("n" :: (EncUtils.bytesToU64Slice bs).map toString))
+  | ["f64b", n] => do
+    let x ← n.toNat?
+    if x ≥ two64 then none else
+    some (hex (EncUtils.float64ToBytes x))
+  | ["bf64", h] => do
+    let bs ← unhex h
+    let v ← EncUtils.bytesToFloat64 bs
+    some s!"{v}"
   | ["mw", n] => do
     let x ← n.toNat?
     if x ≥ two32 then none else
